@@ -22,6 +22,7 @@ import (
 	"time"
 
 	"github.com/algorand/go-algorand/crypto"
+	"github.com/algorand/go-algorand/protocol"
 	"pgregory.net/rapid"
 )
 
@@ -98,14 +99,24 @@ func TestVerif_C05_Progress(t *testing.T) {
 			// constructive desynchronisation (so that the synchrony point finds nodes in different positions):
 			// one node is cut off (partitioned away, or crashed, or deprived of proposal payloads) while the soft votes
 			// of the others are delayed, so the majority walks through next votes into later periods
-			mode := rapid.SampledFrom([]string{"none", "isolate", "crash", "nopayload", "isolate", "crash"}).Draw(t, "desync")
+			modes := []string{"none", "isolate", "crash", "nopayload", "isolate", "crash"}
+			if cfg.Byz == 1 {
+				// the Byzantine account helps the majority through next votes into later periods while one node is cut
+				// off, then falls silent at the synchrony point: the laggard becomes pivotal and has to catch up
+				modes = append(modes, "byzassist", "byzassist", "byzassist")
+			}
+			mode := rapid.SampledFrom(modes).Draw(t, "desync")
 			if mode == "none" {
 				return
 			}
 			x := rapid.IntRange(0, len(s.nodes)-1).Draw(t, "desyncNode")
 			holdSoft := rapid.Bool().Draw(t, "desyncHoldSoft")
+			if mode == "byzassist" {
+				holdSoft = true
+			}
+			assisted := map[engaStepKey]bool{}
 			switch mode {
-			case "isolate":
+			case "isolate", "byzassist":
 				for i := range s.group {
 					s.group[i] = 0
 				}
@@ -123,6 +134,32 @@ func TestVerif_C05_Progress(t *testing.T) {
 			for k := rapid.IntRange(40, 500).Draw(t, "desyncFor"); k > 0; k-- {
 				if !s.benignStep(sc.entropy()) {
 					break
+				}
+				if mode != "byzassist" {
+					continue
+				}
+				var dsts []int
+				for i := range s.nodes {
+					if i != x {
+						dsts = append(dsts, i)
+					}
+				}
+				for i, n := range s.nodes {
+					if i == x || !n.up || n.player.Step < next {
+						continue
+					}
+					for st := next; st <= n.player.Step; st++ {
+						key := engaStepKey{n.player.Round, n.player.Period, st}
+						if assisted[key] {
+							continue
+						}
+						assisted[key] = true
+						sc.byz.precondition(key)
+						if uv, ok := sc.byz.makeVote(s.byz[0], key, bottom); ok {
+							sc.byz.inject(s.byz[0], dsts, protocol.AgreementVoteTag, protocol.Encode(&uv))
+							s.stats.byzVotes++
+						}
+					}
 				}
 			}
 			vkLabelDesync = mode
